@@ -315,3 +315,110 @@ pub fn value_eq(left: &Value, right: &Value) -> bool {
 pub fn value_not_equals(left: &Value, right: &Value) -> bool {
     left.not_equals(right)
 }
+
+// ---------------------------------------------------------------------------
+// small pure kernels
+// ---------------------------------------------------------------------------
+
+pub type Identifier = crate::common::Identifier;
+
+pub fn unvendor(name: &str) -> &str {
+    crate::common::unvendor(name)
+}
+
+pub fn is_plain_css_import(url: &str) -> bool {
+    crate::utils::is_plain_css_import(url)
+}
+
+pub fn syntax_for_path(path: &std::path::Path) -> crate::InputSyntax {
+    crate::InputSyntax::for_path(path)
+}
+
+pub fn fuzzy_equals(a: f64, b: f64) -> bool {
+    crate::value::fuzzy_equals(a, b)
+}
+
+pub fn fuzzy_as_int(a: f64) -> Option<i64> {
+    crate::value::fuzzy_as_int(a)
+}
+
+pub fn fuzzy_round(a: f64) -> f64 {
+    crate::value::fuzzy_round(a)
+}
+
+pub fn fuzzy_less_than(a: f64, b: f64) -> bool {
+    crate::value::fuzzy_less_than(a, b)
+}
+
+pub fn fuzzy_less_than_or_equals(a: f64, b: f64) -> bool {
+    crate::value::fuzzy_less_than_or_equals(a, b)
+}
+
+// ---------------------------------------------------------------------------
+// serializer
+// ---------------------------------------------------------------------------
+
+use crate::serializer::Serializer;
+
+pub fn serialize_value(val: &Value, options: &crate::Options<'_>, span: Span) -> Result<String, Span> {
+    err_span(crate::serializer::serialize_value(val, options, span))
+}
+
+pub fn inspect_value(val: &Value, options: &crate::Options<'_>, span: Span) -> Result<String, Span> {
+    err_span(crate::serializer::inspect_value(val, options, span))
+}
+
+pub fn value_to_css_string(val: &Value, span: Span, is_compressed: bool) -> Result<String, Span> {
+    err_span(val.to_css_string(span, is_compressed))
+}
+
+/// `Serializer::finish` on a serializer whose buffer holds `buffer`
+pub fn serializer_finish(
+    buffer: Vec<u8>,
+    options: &crate::Options<'_>,
+    map: &codemap::CodeMap,
+    span: Span,
+    prev_requires_semicolon: bool,
+) -> String {
+    Serializer::verif_with_buffer(options, map, span, buffer).finish(prev_requires_semicolon)
+}
+
+#[derive(Debug, Clone, Copy, PartialEq, Eq)]
+pub enum SerOp {
+    QuotedString,
+    UnquotedString,
+}
+
+/// Bytes written by a string writer of the serializer
+pub fn serializer_string(op: SerOp, s: &str, options: &crate::Options<'_>, map: &codemap::CodeMap, span: Span) -> Vec<u8> {
+    let mut ser = Serializer::verif_with_buffer(options, map, span, Vec::new());
+    match op {
+        SerOp::QuotedString => ser.verif_visit_quoted_string(s),
+        SerOp::UnquotedString => ser.verif_visit_unquoted_string(s),
+    }
+    ser.verif_buffer()
+}
+
+pub fn serializer_float(f: f64, options: &crate::Options<'_>, map: &codemap::CodeMap, span: Span) -> Vec<u8> {
+    let mut ser = Serializer::verif_with_buffer(options, map, span, Vec::new());
+    ser.verif_write_float(f);
+    ser.verif_buffer()
+}
+
+pub fn serializer_media_query(q: &MediaQuery, options: &crate::Options<'_>, map: &codemap::CodeMap, span: Span) -> Vec<u8> {
+    let mut ser = Serializer::verif_with_buffer(options, map, span, Vec::new());
+    ser.verif_write_media_query(q);
+    ser.verif_buffer()
+}
+
+pub fn is_symmetrical_hex(channel: u32) -> bool {
+    Serializer::verif_is_symmetrical_hex(channel)
+}
+
+pub fn can_use_short_hex(color: &crate::color::Color) -> bool {
+    Serializer::verif_can_use_short_hex(color)
+}
+
+pub fn number_to_string(n: crate::value::Number, is_compressed: bool) -> String {
+    n.to_string(is_compressed)
+}
